@@ -218,6 +218,17 @@ def typeListParse : List Tok → List Nat → Option (List Nat)
       | none => none
     else none
 
+/-- the tables of step `mnem` -/
+def mnemTable : Nat → List (String × Nat)
+  | 0 => Gen.stringToCertType
+  | _ => Gen.stringToAlgorithm
+
+/-- `XToString[v]`, else `strconv.Itoa(v)` -/
+def printMnem (tbl v : Nat) : Bytes :=
+  match (mnemTable tbl).find? (fun p => p.2 == v) with
+  | some p => ascii p.1
+  | none => itoa v
+
 /-- one leaf of a `String()` expression -/
 def printStep : TStep → List TVal → Option (Bytes × List TVal)
   | .uint _, .n v :: vs => some (itoa v, vs)
@@ -227,6 +238,7 @@ def printStep : TStep → List TVal → Option (Bytes × List TVal)
   | .txtPair, .s a :: .s b :: vs => some (sprintTxt [a, b], vs)
   | .txtFirst, .s a :: vs => some (sprintTxt [a], vs)
   | .endStrSplit n, .s t :: vs => some (joinWith 32 (splitN t n), vs)
+  | .mnem tbl _, .n v :: vs => some (printMnem tbl v, vs)
   | .typeList, .nl ts :: vs => some (typesText ts, vs)
   | .ipv4, .s a :: vs => if a.length = 4 then some (printIPv4 a, vs) else none
   | .salt, .s t :: vs => some (if t.isEmpty then [45] else upperAscii t, vs)
@@ -330,6 +342,14 @@ def parsePlan (origin : Bytes) : List TStep → List Tok → List TVal → Optio
     match parseUintN bits l.token with
     | some v => parsePlan origin rest ts.tail (acc ++ [.n v])
     | none => none
+  | .mnem tbl bits :: rest, ts, acc =>
+    let l := headTok ts
+    match lookup (mnemTable tbl) l.token with
+    | some v => parsePlan origin rest ts.tail (acc ++ [.n v])
+    | none =>
+      match parseUintN bits l.token with
+      | some v => parsePlan origin rest ts.tail (acc ++ [.n v])
+      | none => none
   | .uintAlg :: rest, ts, acc =>
     let l := headTok ts
     match parseUintN 8 l.token with
